@@ -125,7 +125,7 @@ def step (fn : Fn Float) (sp : Sp Float) (regs : Array Val) (j : Json) : Except 
     let lo ← getFloat j "lo"
     let hi ← getFloat j "hi"
     -- the constructor flattens a transformed base: its transforms come first
-    pure (.msg (.transformed { base := inner.base, trs := inner.trs ++ trs, id := id, lower := lo, upper := hi }))
+    pure (.msg (inner.wrap trs id lo hi))
   | "mul" => pure (.msg ((← getMsg regs j "a").mul fn (← getMsg regs j "b")))
   | "div" => pure (.msg ((← getMsg regs j "a").div fn (← getMsg regs j "b")))
   | "pow" => pure (.msg ((← getMsg regs j "a").pow fn (← getFloat j "k")))
